@@ -12,7 +12,7 @@ import teneva
 
 LEVEL = "exploration"
 RULE = ("Hypothesis draws TT tensors with controlled decay of the bond spectra (d=2 with an explicitly prescribed spectrum: "
-        "geometric / clustered / repeated / gapped; d>2 gauss cores with per-bond column decay 10^(-decay*j)), global scale "
+        "geometric / clustered / repeated / gapped; a matrix with spectrum (1, a, .., a) carried through 1..3 interior modes of size 1; d>2 gauss cores with per-bond column decay 10^(-decay*j)), global scale "
         "10^[-12,12], accuracy e log-uniform in [1e-12,0.9] or placed at (1 +- 1e-3) x a threshold where a bond rank changes, cap r "
         "in {1..max rank, 1e12, non-integer}, and all four (is_eigh, use_stab) combinations; in half of the cases the same tensor is handed over "
         "with one core times 2^s and another times 2^-s, s in +-{520,560,600} (exact; raw-core Gram products leave the float range); oracle = LAPACK SVD of the input "
@@ -38,7 +38,7 @@ def floor_eigh(R, d, nrm):
 @st.composite
 def decaying_specs(draw, tier, d_max=5):
     """TT spec with decaying bond spectra and a global scale."""
-    kind = draw(st.sampled_from(["spectrum2", "decay", "decay", "family"]))
+    kind = draw(st.sampled_from(["spectrum2", "decay", "decay", "family", "chain1"]))
     scale10 = draw(st.sampled_from([0, 0, 1, -1, 3, -3, 6, -6, 9, -9, 12, -12]))
     if kind == "spectrum2":
         m = draw(st.integers(1, 8)); n = draw(st.integers(1, 8))
@@ -46,6 +46,13 @@ def decaying_specs(draw, tier, d_max=5):
         fam = draw(st.sampled_from(["geometric", "clustered", "repeated", "gapped", "tiny_tail"]))
         return {"kind": kind, "m": m, "n": n, "sfam": fam, "ratio": draw(st.sampled_from([0.5, 0.1, 1e-2, 1e-3])),
                 "seed": draw(gen.seeds), "scale10": scale10, "q": draw(st.integers(1, q))}
+    if kind == "chain1":
+        # a matrix with the spectrum (1, a, .., a) carried through k interior modes of size 1: d-1 = k+1 bonds see the SAME unfolding one
+        # after the other, each truncation finds what the previous one left - the case in which the per-bond budgets really add up
+        k = draw(st.integers(1, 3))
+        q = draw(st.integers(k + 3, k + 7))
+        m = draw(st.integers(q, q + 3)); n = draw(st.integers(q, q + 3))
+        return {"kind": kind, "m": m, "n": n, "q": q, "k": k, "ratio": draw(st.sampled_from([0.3, 0.1, 1e-2, 1e-3])), "seed": draw(gen.seeds), "scale10": scale10}
     if kind == "decay":
         spec = draw(gen.tt_specs(d_max=d_max, n_max=5, r_max=8 if tier == "quick" else 10, size_max=2048 if tier == "quick" else 8192,
                                  families=("gauss",), rank_families=("uniform", "ragged", "over_ranked")))
@@ -92,6 +99,13 @@ def build(spec):
         A = (U * s)
         Y = [A.reshape(1, m, q) * 10.0 ** spec["scale10"], V.T.reshape(q, n, 1).copy()]
         return Y
+    if spec["kind"] == "chain1":
+        rng = np.random.default_rng(spec["seed"])
+        m, n, q = spec["m"], spec["n"], spec["q"]
+        U, _ = np.linalg.qr(rng.normal(size=(m, q)))
+        V, _ = np.linalg.qr(rng.normal(size=(n, q)))
+        sv = np.array([1.0] + [spec["ratio"]] * (q - 1))
+        return [(U * sv).reshape(1, m, q) * 10.0 ** spec["scale10"]] + [np.eye(q).reshape(q, 1, q) for _ in range(spec["k"])] + [V.T.reshape(q, n, 1).copy()]
     Y = gen.build_tt(spec["Y"])
     if spec["kind"] == "decay":
         for k in range(len(Y) - 1):
